@@ -15,6 +15,8 @@ CONSTANTS
   Moves = "all"
   InitAlpha = "ctor"
   AllowKF = TRUE
+  Grads = {TRUE, FALSE}
+  SelHows = {}
 INVARIANT TypeOK
 INVARIANT SampledIsProb
 INVARIANT OneHotAtArgmax
@@ -23,6 +25,7 @@ INVARIANT SoftKeepsWinner
 INVARIANT ReportIsArgmax
 INVARIANT ExportIsArgmax
 INVARIANT ReportIsExport
+INVARIANT ForwardSamples
 PROPERTY DisabledKeeps
 PROPERTY ThetaOnlyBySampling
 PROPERTY AlphaOnlyByWrites
